@@ -78,7 +78,14 @@ def generate(tier, rng):
                 for t in A:
                     if rng.random() < 0.6:
                         t["max"] = max([rng.randint(20, 29)] + [e[-2] for e in t["entries"]])
-            cases.append({"op": "tgappend", "A": A, "B": mk_tg(nb), "args": {"only": rng.random() < 0.5},
+            B = mk_tg(nb)
+            # every other B starts after 0 (as late as its first entry allows, at most 7): what is appended is still moved by
+            # A's end, not by A's end minus B's start.  Decided without a draw: the other cases stay what they were
+            firsts = [t["entries"][0][0] for t in B if t["entries"]]
+            bmin = min(firsts + [7]) if (len(na) + len(nb)) % 2 == 0 and B else 0
+            for t in B:
+                t["min"] = bmin
+            cases.append({"op": "tgappend", "A": A, "B": B, "bmin": bmin, "args": {"only": rng.random() < 0.5},
                           "scale": gen.pick_scale(rng)})
         else:
             cases.append({"op": "tgedit", "A": mk_tg(na), "args": {"o": rng.randint(-35, 20), "mode": rng.choice(MODES)},
@@ -86,9 +93,9 @@ def generate(tier, rng):
     return cases
 
 
-def _mk_tg(tiers, sc):
+def _mk_tg(tiers, sc, lo=0):
     from praatio.data_classes.textgrid import Textgrid
-    tg = Textgrid(sc.f(0), sc.f(30))
+    tg = Textgrid(sc.f(lo), sc.f(30))
     for t in tiers:
         tg.addTier(core.mk_tier(t, sc), reportingMode="silence")
     return tg
@@ -118,7 +125,7 @@ def run(case):
         return core.run_guarded(g)
     if op == "tgappend":
         def h():
-            A, B = _mk_tg(case["A"], sc), _mk_tg(case["B"], sc)
+            A, B = _mk_tg(case["A"], sc), _mk_tg(case["B"], sc, case.get("bmin", 0))
             r = A.appendTextgrid(B, a["only"])
             return {"names": list(r.tierNames), "tiers": [core.snap_tier(x, sc) for x in r.tiers],
                     "min": core.tk(r.minTimestamp, sc), "max": core.tk(r.maxTimestamp, sc)}
@@ -143,7 +150,7 @@ def emit(case, r):
         A = tgops.ctg({"tiers": case["A"], "min": 0, "max": 30})
         if op == "tgedit":
             return "TgEditC %s %s %s %s" % (A, core.cz(a["o"]), tierops.REP[a["mode"]], _ctg_out(r))
-        B = tgops.ctg({"tiers": case["B"], "min": 0, "max": 30})
+        B = tgops.ctg({"tiers": case["B"], "min": case.get("bmin", 0), "max": 30})
         return "TgAppendC %s %s %s %s" % (A, B, core.cbool(a["only"]), _ctg_out(r))
     t, a = case["tier"], case["args"]
     I = t["kind"] == "I"
